@@ -41,6 +41,7 @@ const (
 	kDeferSwallow = "defer-swallows-panic"
 	kMultiInit    = "multi-init-global-usage"
 	kMultiDefer   = "multi-defer-recover-result"
+	kResidue      = "recover-stack-residue"
 )
 
 type vinfo struct {
@@ -114,6 +115,11 @@ type fctx struct {
 	inLambda  bool
 	inInit    bool
 	nDefers   int
+	// noSoftExpr: catchable exceptions may only be raised by statements executed with an empty evaluation
+	// stack (a recovering function would otherwise return with residue on the stack); stackItems counts the
+	// enclosing range loops and switches, which keep their state on the evaluation stack.
+	noSoftExpr bool
+	stackItems int
 }
 
 type gen struct {
@@ -396,7 +402,12 @@ func (g *gen) shift(op string, a ex, k ex) ex {
 	return r
 }
 
-func (g *gen) mayPanic() bool  { return !g.f.noPanic && !g.f.noSoft }
+func (g *gen) mayPanic() bool  { return !g.f.noPanic && !g.f.noSoft && !g.f.noSoftExpr }
+
+// softStmtOK: may a statement raise a catchable exception here (explicit panic, call of a function that may)?
+func (g *gen) softStmtOK() bool {
+	return !g.f.noPanic && !g.f.noSoft && (!g.f.noSoftExpr || g.f.stackItems == 0)
+}
 func (g *gen) mayHard() bool   { return !g.f.noPanic && !g.f.protected }
 func (g *gen) account(c int)   { g.f.cost += c * g.f.mult }
 func (g *gen) room(c int) bool { return g.f.cost+c*g.f.mult <= g.f.budget }
@@ -521,9 +532,13 @@ func (g *gen) genInt(d int) ex {
 			e := g.genInt(d - 1)
 			k = ex{n: bin("&", e.n, ilit(7)), lo: 0, hi: 7, pan: e.pan, hard: e.hard}
 		}
-		if a.konst && k.konst {
+		if a.konst {
+			// an untyped constant on the left of a non-constant shift takes its type from the context
+			// (e.g. byte(-2 >> n) does not compile): shift variables, or shift constants by constants
 			if e, ok := g.intVar(); ok {
 				a = e
+			} else if !k.konst {
+				k = ex{n: ilit(1), lo: 1, hi: 1, konst: true}
 			}
 		}
 		if op == "<<" && mag(a)*math.Pow(2, k.hi) > lim {
@@ -761,6 +776,9 @@ func (g *gen) callOK(f *fsig, exprCtx bool) bool {
 	if g.f.noSoft && f.soft {
 		return false
 	}
+	if f.soft && g.f.noSoftExpr && (exprCtx || g.f.stackItems > 0) {
+		return false
+	}
 	if g.f.protected && f.hard {
 		return false
 	}
@@ -823,7 +841,7 @@ func (g *gen) noteCall(f *fsig) {
 func (g *gen) genCall(typ string, d int) (ex, bool) {
 	cs := g.callables([]string{typ}, true)
 	// self recursion (pure functions only inside expressions)
-	if g.f.fuel != nil && g.f.sig.pure && len(g.f.sig.results) == 1 && g.f.sig.results[0] == typ && g.f.selfCalls < 2 && !g.f.inLambda && g.f.loopDepth == 0 {
+	if g.f.fuel != nil && g.f.sig.pure && len(g.f.sig.results) == 1 && g.f.sig.results[0] == typ && g.f.selfCalls < 2 && !g.f.inLambda && g.f.loopDepth == 0 && !g.f.noSoftExpr && !g.f.noSoft && !g.f.noPanic {
 		cs = append(cs, g.f.sig)
 	}
 	var ms []*fsig
